@@ -70,7 +70,16 @@ CE(e) ==
     [] e.k = "mem" -> CE(e.e) \o << [i |-> "member", p |-> e.p] >>
     [] e.k = "this" -> << [i |-> "this", p |-> e.p] >>
     [] e.k = "call" -> CEs(e.args) \o << [i |-> "call", f |-> e.f, n |-> Len(e.args), y |-> e.y] >>
-    [] e.k = "mcall" -> CE(e.e) \o CEs(e.args) \o << [i |-> "mcall", m |-> e.m, n |-> Len(e.args)] >>
+    [] e.k = "mcall" ->
+         \* 自增 / 自减 of a number change the value IN PLACE: on a variable, element or property that is a
+         \* read-modify-write of that place (numbers are copied whenever they are bound, so no other place sees it)
+         IF e.m \in {"@incr", "@decr"} /\ Len(e.args) = 1 /\ e.e.k \in {"var", "idx", "mem", "this"}
+         THEN LET v == [k |-> "bin", op |-> IF e.m = "@incr" THEN "add" ELSE "sub", l |-> e.e, r |-> e.args[1]]
+              IN CASE e.e.k = "var" -> CE(v) \o << [i |-> "store", n |-> e.e.n] >>
+                   [] e.e.k = "idx" -> CE(v) \o CE(e.e.e) \o CE(e.e.i) \o << Ins("storeidx") >>
+                   [] e.e.k = "mem" -> CE(v) \o CE(e.e.e) \o << [i |-> "storemem", p |-> e.e.p] >>
+                   [] e.e.k = "this" -> CE(v) \o << [i |-> "storethis", p |-> e.e.p] >>
+         ELSE CE(e.e) \o CEs(e.args) \o << [i |-> "mcall", m |-> e.m, n |-> Len(e.args)] >>
     [] e.k = "new" -> CEs(e.args) \o << [i |-> "new", cls |-> e.cls, n |-> Len(e.args)] >>
     [] e.k = "asg" ->
          CASE e.tgt.k = "var" -> CE(e.e) \o << [i |-> "store", n |-> e.tgt.n] >>
